@@ -9,6 +9,7 @@ Actions (JSON lists):
   ["gc", mode]                               collect | disable | enable
   ["junk", n]                                allocate and keep n small objects (shifts addresses)
   ["env", kind]                              formatter environment fault from here on (see FaultEnv)
+  ["drop", cid]                              forget a context and its requests, then gc.collect()
   ["fault", k, action]                       run action, raise InjectedFault at the k-th line event
                                              inside functional_algorithms/**
 """
@@ -124,6 +125,10 @@ def gen_history(seed, universe, cfg):
                 else:
                     rid = new_rid()
                     acts += steps(rid, cid, r, debug, tag, False, raw)
+            if rq.random() < 0.5:
+                # users drop a context when they are done with it: its expressions die and their addresses
+                # are recycled by whatever is built next
+                acts.append(["drop", cid])
             threads.append(acts)
 
     # interleave
@@ -308,6 +313,15 @@ class Executor:
             if len(self.junk) > 4:
                 self.junk.pop(0)
             self.bump(self.stats, "junk_allocations")
+            return
+        if op == "drop":
+            cid = a[1]
+            self.ctxs.pop(cid, None)
+            self.ctx_hist.pop(cid, None)
+            for rid in [r for r, q in self.reqs.items() if q["cid"] == cid]:
+                del self.reqs[rid]
+            gc.collect()
+            self.bump(self.stats, "contexts_dropped")
             return
         if op == "env":
             self.env.apply(a[1])
